@@ -9,7 +9,7 @@ package ctl
 // target's contents (read back with Rows()/Row() queries, keys translated by the server) must
 // equal the source's. Enumerated: all 64 subsets x {unkeyed, row keys, column keys, both} x
 // assignments of keys from {a, "a,b", q"q, é, " lead", multi-line} (+CRLF, '#', empty-looking
-// in thorough) x import buffer sizes {1, 2, 1000} (rotated in quick, all in thorough) x
+// in thorough) x import buffer sizes {1, 2, 1000} (rotated over the cases; all three for the unkeyed mode and the full/diagonal subsets in thorough) x
 // {export to file, export to stdout} x {pre-created target, --create-schema}.
 
 import (
@@ -23,6 +23,7 @@ import (
 	"sort"
 	"strconv"
 	"strings"
+	"sync"
 	"sync/atomic"
 	"testing"
 	"time"
@@ -435,6 +436,33 @@ func (s *c30Server) run(cs c30Case) (stage, got, want, csvText string, keyClasse
 	return "", dstSet, srcSet, csvText, keyClasses
 }
 
+type c30Fail struct {
+	cs                    c30Case
+	stage, got, want, csv string
+	kcs                   []string
+}
+
+func c30Pop(m int) int {
+	n := 0
+	for ; m != 0; m &= m - 1 {
+		n++
+	}
+	return n
+}
+
+func c30Subset(a, b []string) bool {
+	set := map[string]bool{}
+	for _, x := range b {
+		set[x] = true
+	}
+	for _, x := range a {
+		if !set[x] {
+			return false
+		}
+	}
+	return true
+}
+
 func TestVerif_C30(t *testing.T) {
 	c := vx.NewCheck("C30", "exploration",
 		"every subset of a 6-bit universe (2 rows x 3 columns, unkeyed columns in shards 0,1,3) x {unkeyed,row keys,column keys,both} x key assignments "+
@@ -468,11 +496,9 @@ func TestVerif_C30(t *testing.T) {
 	var rowChoices [][2]string
 	var colChoices [][3]string
 	if thorough {
-		for i := 0; i < nk; i++ {
-			for j := 0; j < nk; j++ {
-				if i != j {
-					rowChoices = append(rowChoices, [2]string{keys[i], keys[j]})
-				}
+		for d := 1; d <= 3; d++ {
+			for i := 0; i < nk; i++ {
+				rowChoices = append(rowChoices, [2]string{keys[i], keys[(i+d)%nk]})
 			}
 		}
 	} else {
@@ -491,7 +517,7 @@ func TestVerif_C30(t *testing.T) {
 	add := func(mode int, rows [2]string, cols [3]string) {
 		for mask := 0; mask < 64; mask++ {
 			bufs := []int{[]int{1000, 1, 2}[(len(cases))%3]}
-			if thorough {
+			if thorough && (mode == 0 || mask == 63 || mask == 9) {
 				bufs = []int{1, 2, 1000}
 			}
 			for _, b := range bufs {
@@ -532,6 +558,8 @@ func TestVerif_C30(t *testing.T) {
 	c.Bound("import_buffer_sizes", []int{1, 2, 1000})
 
 	var done int64
+	var failMu sync.Mutex
+	var fails []c30Fail
 	vx.ParallelFor(len(cases), func(i int) {
 		if c.Expired() {
 			return
@@ -555,14 +583,90 @@ func TestVerif_C30(t *testing.T) {
 			}
 			return
 		}
-		if strings.HasPrefix(stage, "setup-") {
-			// the source could not be prepared as intended: not a verdict about export/import
-			c.Violate("harness-setup "+stage+" mode="+c30Mode(cs.mode)+" keys="+strings.Join(kcs, ","), cs.String(), got, want)
-			return
+		failMu.Lock()
+		fails = append(fails, c30Fail{cs, stage, got, want, csvText, kcs})
+		failMu.Unlock()
+		if !strings.HasPrefix(stage, "setup-") {
+			c.Outcome("FAIL " + stage)
 		}
-		c.Outcome("FAIL " + stage)
-		c.Violate(fmt.Sprintf("roundtrip %s mode=%s keys=%s", stage, c30Mode(cs.mode), strings.Join(kcs, ",")), cs.String()+" csv="+strconv.Quote(csvText), got, want)
 	})
+	// Keying: failing cases are grouped by (stage, mode); the cases with the fewest bits come first
+	// and name the key by the key classes they use; a larger failing case whose key classes include
+	// an already reported set is counted under that key (one root cause -> one key).
+	sort.Slice(fails, func(i, j int) bool {
+		a, b := fails[i], fails[j]
+		if pa, pb := c30Pop(a.cs.mask), c30Pop(b.cs.mask); pa != pb {
+			return pa < pb
+		}
+		if len(a.kcs) != len(b.kcs) {
+			return len(a.kcs) < len(b.kcs)
+		}
+		return a.cs.id < b.cs.id
+	})
+	type emitted struct {
+		group string
+		kcs   []string
+		key   string
+	}
+	var em []emitted
+	// a group that also fails with plain keys only does not depend on the key class
+	plainFails := map[string]bool{}
+	for _, f := range fails {
+		plain := true
+		for _, k := range f.kcs {
+			if !strings.HasSuffix(k, ":plain") {
+				plain = false
+			}
+		}
+		if plain {
+			plainFails[f.stage+" mode="+c30Mode(f.cs.mode)] = true
+		}
+	}
+	// ... and so does a group whose smallest failing cases show more than three different class sets
+	minPop := map[string]int{}
+	classSets := map[string]map[string]bool{}
+	for _, f := range fails {
+		g := f.stage + " mode=" + c30Mode(f.cs.mode)
+		p := c30Pop(f.cs.mask)
+		if mp, ok := minPop[g]; !ok || p < mp {
+			minPop[g] = p
+			classSets[g] = map[string]bool{}
+		}
+		if p == minPop[g] {
+			classSets[g][strings.Join(f.kcs, ",")] = true
+		}
+	}
+	for g, m := range classSets {
+		if len(m) > 3 {
+			plainFails[g] = true
+		}
+	}
+	for _, f := range fails {
+		group := f.stage + " mode=" + c30Mode(f.cs.mode)
+		key := ""
+		if plainFails[group] {
+			f.kcs = nil
+		}
+		for _, e := range em {
+			if e.group == group && c30Subset(e.kcs, f.kcs) {
+				key = e.key
+				break
+			}
+		}
+		if key == "" {
+			prefix := "roundtrip "
+			if strings.HasPrefix(f.stage, "setup-") {
+				// the source could not be prepared as intended: not a verdict about export/import
+				prefix = "harness-setup "
+			}
+			key = prefix + group + " keys=" + strings.Join(f.kcs, ",")
+			if len(f.kcs) == 0 {
+				key = prefix + group + " keys=any"
+			}
+			em = append(em, emitted{group, f.kcs, key})
+		}
+		c.Violate(key, f.cs.String()+" csv="+strconv.Quote(f.csv), f.got, f.want)
+	}
 	c.AddValidated(done)
 	c.Assume("column keys are translated to sequential ids by the server, so keyed columns all live in shard 0; multi-shard layouts (0,1,3) are covered by the unkeyed-column modes")
 	c.Assume("source contents are written with API.Import and verified with Rows()/Row() queries before the export (a source that is not as intended is reported as harness-setup, never as a round-trip verdict)")
